@@ -28,7 +28,21 @@ def expand(o):
     return o
 
 
-def perform(o, family):
+def as_iterable(items, form):
+    """The children argument in different iterable forms (the setter accepts any iterable)."""
+    form %= 5
+    if form == 0:
+        return list(items)
+    if form == 1:
+        return tuple(items)
+    if form == 2:
+        return (x for x in items)
+    if form == 3:
+        return iter(list(items))
+    return reversed(list(reversed(items)))
+
+
+def perform(o, family, form=0):
     """Run the call of observation/vector `o` on fresh objects of `family`; return the observation of the real code."""
     from . import nodes as N
 
@@ -62,9 +76,9 @@ def perform(o, family):
             if o["bad"]:
                 objs[o["n"]].children = 5
             else:
-                objs[o["n"]].children = [arg(x) for x in o["xs"]]
+                objs[o["n"]].children = as_iterable([arg(x) for x in o["xs"]], form)
         elif k == "ct":
-            N.construct(family, o["n"], parent=arg(o["v"]), children=[arg(x) for x in o["xs"]] or None)
+            N.construct(family, o["n"], parent=arg(o["v"]), children=as_iterable([arg(x) for x in o["xs"]], form if form % 5 < 2 else 0) or None)
     except BaseException as e:  # noqa: the outcome is data
         if isinstance(e, (KeyboardInterrupt, SystemExit)):
             raise
@@ -77,7 +91,7 @@ def perform(o, family):
         postpar[o["n"]] = "Nil"
         postch[o["n"]] = []
     obs = dict(o)
-    obs.update(exc=exc, src=src, log=log, postpar=postpar, postch=postch)
+    obs.update(exc=exc, src=src, log=log, postpar=postpar, postch=postch, iterable_form=form % 5)
     obs.pop("marks", None)
     return obs
 
@@ -128,9 +142,12 @@ def replay_chunk(args):
         else:
             out["dropped"] += 1
 
+    import zlib
+
     for line in lines:
         vec = json.loads(json.loads(line))
         pred = expand(vec["o"])
+        form0 = zlib.crc32(line.encode()) % 5
         flags = {k: vec[k] for k in ("c01", "c02", "c03", "c03a", "c16")}
         observed = {}
         nonnode = pred["v"] == "NonNode" or "NonNode" in pred["xs"]
@@ -139,7 +156,7 @@ def replay_chunk(args):
                 continue    # non-node arguments are outside the properties for LightNodeMixin classes
             out["n"] += 1
             out["per_family"][fam] = out["per_family"].get(fam, 0) + 1
-            obs = perform(pred, fam)
+            obs = perform(pred, fam, form0)
             observed[fam] = obs
             if obs.get("build_failed"):
                 attention({"family": fam, "pred": pred, "obs": obs, "flags": flags, "why": "build"})
